@@ -341,4 +341,8 @@ def level_a(tier):
     """wrapper-level clauses of C12 proved by pyvc: on every path of all 12 wrappers the user function is entered with the
     caller's own *args/**kwds; key() returns the key of the rounded arguments; __init__ selects simple_round(tol) / deep_round(tol)"""
     from checks import wrapperprops
-    return wrapperprops.level_a_summary('C12', tier)
+    a = wrapperprops.level_a_summary('C12', tier)
+    b = wrapperprops.rounding_level_a()      # the real simple_round body under contract (contracts/rounding_contracts.py)
+    return {'obligations': a['obligations'] + b['obligations'], 'discharged': a['discharged'] + b['discharged'],
+            'failed': a['failed'] + b['failed'], 'functions': a['functions'] + b['functions'], 'ms': a['ms'] + b['ms'],
+            'unsupported': a['unsupported'] + b['unsupported']}
